@@ -20,6 +20,8 @@ Observed: overlapping frame emissions, frames whose height is not the height the
 the frame was drawn, key handlers that never return (watchdog).  Built with -race in the C08
 check, so the race detector watches the whole run.
 */
+func r0(op Op) *rand.Rand { return rand.New(rand.NewSource(int64(I(op, "seed")) + 7)) }
+
 func init() {
 	execs["uistress"] = func(op Op) any {
 		sm := startSimulator()
@@ -28,7 +30,8 @@ func init() {
 		atomic.StoreInt64(&simLatencyMicros, int64(I(op, "latency")))
 		defer atomic.StoreInt64(&simLatencyMicros, 0)
 		saved := config.Parsed.Media.Hook
-		config.Parsed.Media.Hook = []string{"verifdump", "%url"}
+		/* a hook that is still running when the next keys arrive */
+		config.Parsed.Media.Hook = []string{"sleep", pick(r0(op), []string{"0.002", "0.005", "0.02"})}
 		defer func() { config.Parsed.Media.Hook = saved }()
 		r := rand.New(rand.NewSource(int64(I(op, "seed"))))
 		var inCallback int32
